@@ -59,6 +59,16 @@ type c17Spec struct {
 	// AltUnits: every second repetition of a benchmark line reports its units in reverse order, so consecutive
 	// lines of one benchmark carry different units in the same column
 	AltUnits bool `json:",omitempty"`
+	// GroupNames: the values of the pkg label of the two blocks (default p1, p2); a value may contain '/', as may a
+	// benchmark name, so that group and name read the same when joined: (enc, A/B) and (enc/A, B)
+	GroupNames []string `json:",omitempty"`
+}
+
+func (s c17Spec) groupNames() []string {
+	if len(s.GroupNames) == 2 {
+		return s.GroupNames
+	}
+	return []string{"p1", "p2"}
 }
 
 // values returns the measurements of (config, benchmark index, unit index).
@@ -75,7 +85,7 @@ func (s c17Spec) text(ci int) string {
 	var b strings.Builder
 	blocks := []string{""}
 	if s.Groups {
-		blocks = []string{"p1", "p2"}
+		blocks = s.groupNames()
 	}
 	for gi, blk := range blocks {
 		if blk != "" {
@@ -234,7 +244,7 @@ func (s c17Spec) reference() (tables []expTable, ambiguous bool) {
 	}
 	groups := []string{""}
 	if s.Groups && s.SplitPkg {
-		groups = []string{"pkg:p1", "pkg:p2"}
+		groups = []string{"pkg:" + s.groupNames()[0], "pkg:" + s.groupNames()[1]}
 	}
 	// first-appearance order of benchmarks per group across configs
 	var benches []string
@@ -658,6 +668,22 @@ func c17Specs(thorough bool) []c17Spec {
 							base := c17Spec{Configs: nc, Layout: lay[:nc], Units: us, Pats: []string{p0, p1, p0}[:nc], Shift: sh[:nc]}
 							specs = append(specs, base)
 						}
+					}
+				}
+			}
+		}
+	}
+	// group labels and sub-benchmark names that contain the separator of the other: the pairs (enc, A/B) and
+	// (enc/A, B) — and (p, C/x) and (p/C, x) — are different keys that read the same when joined with '/'
+	for _, lay := range [][][]string{
+		{{"A/B", "B"}, {"A/B", "B"}, {"B", "A/B"}},
+		{{"B", "A/B", "C"}, {"A/B", "B"}, {"C"}},
+	} {
+		for _, gn := range [][]string{{"enc", "enc/A"}, {"enc/A", "enc"}} {
+			for _, us := range unitSets[:3] {
+				for _, nc := range []int{1, 2, 3} {
+					for _, pp := range [][2]string{{"incr", "incr"}, {"ten", "outlier"}, {"single", "constant"}} {
+						specs = append(specs, c17Spec{Configs: nc, Layout: lay[:nc], Units: us, Pats: []string{pp[0], pp[1], pp[0]}[:nc], Shift: shifts[1][:nc], GroupNames: gn})
 					}
 				}
 			}
